@@ -279,7 +279,28 @@ def check_c09(tier):
                        "mesh_with_degenerate_face", "mesh_with_isolated_point"])
 
 
+def check_c10(tier):
+    return check_geom("C10", "c10", tier, 2000, 20000,
+                      ["skip_quantized", "skip_octahedral", "skip_kdtree_quantized", "method_mesh_edgebreaker",
+                       "method_mesh_sequential", "method_pc_sequential", "method_pc_kdtree", "att_explicit_quantization_used"])
+
+
+def check_c04(tier):
+    return check_geom("C04", "c04", tier, 2500, 30000,
+                      ["q_1_8", "q_9_20", "q_21_30", "method_mesh_edgebreaker", "method_mesh_sequential",
+                       "method_pc_sequential", "method_pc_kdtree", "att_explicit_quantization_used"])
+
+
+def check_c12(tier):
+    return check_geom("C12", "c12", tier, 1500, 15000,
+                      ["pairs_with_2plus_shared", "q_1_8", "q_9_20", "q_21_30", "pair_eb_kd", "pair_kd_eb",
+                       "pair_eb_pseq", "pair_mseq_eb"])
+
+
 CHECKS = {
+    "C04": check_c04,
+    "C10": check_c10,
+    "C12": check_c12,
     "C01": check_c01,
     "C08": check_c08,
     "C09": check_c09,
@@ -288,6 +309,9 @@ CHECKS = {
 REPLAYERS = {
     # property -> list of (harness, default mode)
     "C01": [("geom_pbt", "c01")],
+    "C04": [("geom_pbt", "c04")],
+    "C10": [("geom_pbt", "c10")],
+    "C12": [("geom_pbt", "c12")],
     "C08": [("c08_symbols", "c08")],
     "C09": [("geom_pbt", "c09")],
 }
